@@ -136,7 +136,7 @@ def run(rep, tier, seed):
     except TranslationError as e:
         rep.notes.append("translator: " + str(e))
         cmds = []
-    names = [n for n in dir(APIClient) if n.endswith("_command")]
+    names = [n for n in dir(APIClient) if n.endswith("_command") and not n.startswith("_")]
     calls = []
     for name in names:
         sig = inspect.signature(getattr(APIClient, name))
@@ -391,6 +391,74 @@ def run(rep, tier, seed):
         set_fields = [fd.name for fd, _ in arg.ListFields()] if arg is not None else []
         if msg.key not in (9, 31) or set_fields not in ([want_field], []) or (set_fields == [] and val not in (0, False, "", [], 0.0)):
             rep.violation(f"C15/execute_service:{t.name}", f"execute_service argument of type {t.name} at API {ver}: fields set {set_fields}, expected {want_field}", replay)
+
+    # ---- a call the library refuses writes nothing: one argument carries a value its wire field cannot hold (a float / negative /
+    # too large number for an unsigned integer, text for a number, a number for text) while all the other arguments are fine
+    def bad_values(annotation):
+        a = annotation.replace(" | None", "").strip()
+        if a == "int":
+            return [2.5, -1, 1 << 40, "x"]
+        if a == "float":
+            return ["x", (1.0,)]
+        if a == "str":
+            return [5, 2.5, b"\xff\xfe"]
+        if a.startswith("tuple"):
+            return [("a", "b", "c"), (1.0,)]
+        return []
+    refused_calls = []
+    for name in names:
+        sig = inspect.signature(getattr(APIClient, name))
+        params = [p for p in sig.parameters.values() if p.name != "self"]
+        for victim in params:
+            if victim.name == "key":
+                continue
+            for bv in bad_values(str(victim.annotation)):
+                kwargs = {}
+                for p in params:
+                    if p.name == "key":
+                        kwargs["key"] = 5
+                    elif p is victim:
+                        kwargs[p.name] = bv
+                    elif p.name in ("transition_length", "flash_length"):
+                        kwargs[p.name] = 0.5
+                    elif str(p.annotation).replace(" | None", "") == "bool":
+                        kwargs[p.name] = True
+                    else:
+                        kwargs[p.name] = values_for(str(p.annotation), rng)[1]
+                refused_calls.append((name, victim.name, kwargs))
+
+    def refused_sweep(loop):
+        async def inner():
+            out = []
+            net = simnet.Net(loop)
+            with net.patched():
+                cli, tr = await simnet.connected_client(loop, net, api=(1, 10))
+                for name, victim, kwargs in refused_calls:
+                    n0 = len(tr.writes)
+                    err = None
+                    try:
+                        getattr(cli, name)(**kwargs)
+                    except Exception as e:  # noqa: BLE001
+                        err = type(e).__name__
+                    out.append((name, victim, kwargs, err, [d for _, d in tr.writes[n0:]]))
+                await cli.disconnect(force=True)
+                await simnet.drain(loop)
+            return out
+        return inner()
+    for name, victim, kwargs, err, writes in simnet.run(refused_sweep):
+        rep.case(("refused", name, victim, repr(kwargs[victim])), True, sample=None)
+        rep.bump("refused-value:" + ("raised" if err else "accepted"))
+        if err is not None and writes:
+            try:
+                ty, payload = simnet.decode_plain_stream(writes[0])[0]
+                m = MESSAGE_TYPE_TO_PROTO[ty]()
+                m.ParseFromString(payload)
+                what = f"{type(m).__name__}({', '.join(fd.name + '=' + repr(v)[:20] for fd, v in m.ListFields())})"
+            except Exception:  # noqa: BLE001
+                what = writes[0][:40].hex()
+            rep.violation(f"C15/refused-call-wrote:{name}", f"{name}(..., {victim}={kwargs[victim]!r}, all other arguments supplied with valid values) raised {err}, yet a request was written: "
+                          f"{what} - the device receives a command that lacks arguments the caller supplied",
+                          {"kind": "impl-case", "method": name, "kwargs": {k: repr(v) for k, v in kwargs.items()}, "api_version": [1, 10], "refused": victim})
 
     rep.coverage["disagreements"] = len(disagreements)
     if disagreements and not rep.violations:
